@@ -103,7 +103,7 @@ theorem vmean_var_agree (sqrt : Rat → Rat) (xs : List (Option Rat)) (mp : Nat)
     Agree2 sqrt (GenAgg.vmean_var.run sqrt xs mp) (C11.vmeanVar mp xs) := by
   unfold GenAgg.vmean_var.run
   simp only []
-  rw [vapplyN_pow2 _ (fun a b v => rfl) xs]
+  rw [vapplyN_pow2 _ (fun a b v => by first | rfl | (simp only [pow_two]) | (simp [pow_two, pow_succ]; try ring)) xs]
   simp only [C11.vmeanVar, Agree2, eps_eq, decide_eq_true_eq, sq, Pow.pvar]
   generalize pows xs = s
   by_cases h1 : s.n < mp
@@ -157,7 +157,7 @@ theorem vskew_mask (sqrt : Rat → Rat) (xs : List (Option Rat)) (mp : Nat) :
     AgreeMask (GenAgg.vskew.run sqrt xs mp) (C11.vskew mp xs) := by
   unfold GenAgg.vskew.run
   simp only []
-  rw [vapplyN_pow3 _ (fun a b c v => rfl) xs]
+  rw [vapplyN_pow3 _ (fun a b c v => by first | rfl | (simp only [pow_two]) | (simp [pow_two, pow_succ]; try ring)) xs]
   simp only [C11.vskew, eps_eq, decide_eq_true_eq, sq, Pow.pvar, AgreeMask]
   generalize pows xs = s
   by_cases h1 : s.n < mp
